@@ -2,7 +2,7 @@
 
     Statements only; proofs in [Farm/Rewards.v] (on top of the invariant of [Farm/Proofs.v]).
     [reachable s] as in C05: any history from any genesis with an empty farm account. *)
-From Irismod Require Import Farm.Model Farm.Check Farm.Proofs Farm.Rewards Farm.Refund Farm.Budget Farm.Sound Farm.History Farm.Sound6 Farm.ProRata Farm.SoundTrace Farm.FairFold Farm.FairModel Farm.FairRef.
+From Irismod Require Import Farm.Model Farm.Check Farm.Proofs Farm.Rewards Farm.Refund Farm.Budget Farm.Sound Farm.History Farm.Sound6 Farm.ProRata Farm.SoundTrace Farm.FairFold Farm.FairModel Farm.FairRef Farm.Params.
 From Coq Require Import QArith.
 Close Scope Q_scope.
 Open Scope Z_scope.
@@ -220,8 +220,8 @@ Qed.
     schedule) returns 0 on the MODEL's own observations at every step of every history. *)
 Theorem c06_checker_predicate_holds_on_the_model :
   forall (s : state) (st : step) (oc0 : outcome) (rw0 : list (denom * Z)),
-    reachable s -> valid_step st -> (match st with Msg m => In (sender m) actors | NextBlock => True end) ->
-    c06_step (height s) (obs_of s oc0 rw0) st (obs_after s st) = 0.
+    reachable s -> valid_step st -> actor_step st ->
+    c06_step (height s) (cfee s) (obs_of s oc0 rw0) st (obs_after s st) = 0.
 Proof. intros s st oc0 rw0 R. exact (model_passes_c06 s st oc0 rw0 (reachable_inv _ R)). Qed.
 Print Assumptions c06_checker_predicate_holds_on_the_model.
 
@@ -315,6 +315,64 @@ Proof.
   split; [repeat (apply Forall_cons; [split; vm_compute; reflexivity|]); apply Forall_nil|].
   split; [vm_compute; reflexivity|]. split; vm_compute; reflexivity.
 Qed.
+
+(** PARAMETER CHANGES (MsgUpdateParams) are a step of the model: the state carries the creation fee and the tax rate
+    ([cfee], [trate]; genesis: 5000 and 0.4).  A change is accepted only from the authority and only with valid
+    parameters (fee a valid coin amount of at most 255 bits, 0 < tax < 1) and touches nothing but the two parameters;
+    every other step leaves them alone ([params_after]); all theorems of C05/C06 above are proved with this step in the
+    histories.  The parameters enter only the fee split of CreatePool. *)
+Theorem parameter_change_touches_only_the_parameters :
+  forall (s : state) (who : acct) (cf : Z) (tr : dec) (s' : state) (rw : list (denom * Z)),
+    update_params s who cf tr = Done s' rw ->
+    who = AUTH /\ 0 <= cf < 2 ^ 255 /\ 0 < tr < P18 /\ rw = []
+    /\ s' = mkSt (height s) (pools s) (queue s) (seq s) (bank s) cf tr.
+Proof. exact update_params_Done. Qed.
+Print Assumptions parameter_change_touches_only_the_parameters.
+
+Theorem parameter_change_only_by_the_authority :
+  forall (s : state) (who : acct) (cf : Z) (tr : dec), who <> AUTH -> update_params s who cf tr = Fail Rej.
+Proof. exact params_only_by_authority. Qed.
+Print Assumptions parameter_change_only_by_the_authority.
+
+Theorem parameters_change_only_by_a_parameter_change :
+  forall (s : state) (st : step), inv s -> (cfee (step_state s st), trate (step_state s st)) = params_after s st.
+Proof. exact step_params. Qed.
+Print Assumptions parameters_change_only_by_a_parameter_change.
+
+(** the fee split: the creator pays the fee in force, the fee collector receives fee x tax rate (truncated, between 0
+    and the fee), the rest is burned, the farm account and everybody else are unchanged *)
+Theorem creation_fee_split :
+  forall (cf : Z) (tr : dec) (b : ledger) (who : acct) (b1 : ledger),
+    deduct_fee cf tr b who = Some b1 -> who <> FARM -> who <> FEEC -> who <> BURN ->
+    let tax := dec_truncate_int (dec_mul (dec_of_int cf) tr) in
+    0 <= tax <= cf
+    /\ forall d, bal b1 who d = bal b who d - (if d =? STAKE then cf else 0)
+              /\ bal b1 FEEC d = bal b FEEC d + (if d =? STAKE then tax else 0)
+              /\ bal b1 BURN d = bal b BURN d + (if d =? STAKE then cf - tax else 0)
+              /\ bal b1 FARM d = bal b FARM d
+              /\ forall x, x <> who -> x <> FARM -> x <> FEEC -> x <> BURN -> bal b1 x d = bal b x d.
+Proof. exact deduct_fee_split. Qed.
+Print Assumptions creation_fee_split.
+
+Theorem create_pool_charges_the_parameters_in_force :
+  forall (s : state) (who : acct) (lpt : denom) (start : Z) (ed : bool) (rules : list (denom * Z * Z)) (s' : state) (rw : list (denom * Z)),
+    create_pool s who lpt start ed rules = Done s' rw ->
+    exists b1 b2, deduct_fee (cfee s) (trate s) (bank s) who = Some b1
+                  /\ send_many b1 who FARM (map (fun '(d, t, _) => (d, t)) rules) = Some b2 /\ bank s' = b2
+                  /\ cfee s' = cfee s /\ trate s' = trate s.
+Proof. exact create_uses_current_params. Qed.
+Print Assumptions create_pool_charges_the_parameters_in_force.
+
+(** non-vacuity: the authority sets fee 7 and tax 1/3; the next pool costs its creator 7 (2 to the fee collector,
+    5 burned); a farmer's attempt and an invalid tax rate are rejected and change nothing *)
+Example c06_params_nonvacuous :
+  let bk : ledger := fold_left (fun l a => fold_left (fun l' d => credit l' a d 1000000) [0; 1; 2; 3] l) [0; 1; 2] [] in
+  let s0 := init bk 2 in
+  let s1 := run s0 [Msg (UpdateParams 1 9 500000000000000000); Msg (UpdateParams AUTH 9 P18); Msg (UpdateParams AUTH 7 333333333333333333)] in
+  let s2 := step_state s1 (Msg (CreatePool 0 0 2 true [(3, 1000, 1)])) in
+  (cfee s0, trate s0, cfee s1, trate s1) = (5000, 400000000000000000, 7, 333333333333333333)
+  /\ (bal (bank s1) 0 STAKE - bal (bank s2) 0 STAKE, bal (bank s2) FEEC STAKE, bal (bank s2) BURN STAKE, seq s2) = (1007, 2, 5, 1).
+Proof. cbv zeta. split; vm_compute; reflexivity. Qed.
 
 (** The duration AdjustPool computes (availableHeight) is never negative (imported by the queues group). *)
 Theorem adjust_duration_is_nonnegative :
